@@ -590,11 +590,9 @@ func BufferWithCount[T any](size int) func(Observable[T]) Observable[[]T] {
 				),
 			)
 
-			return func() {
-				sub.Unsubscribe()
-
-				buffer = []T{}
-			}
+			// The buffer is not reset here: the teardown may run on another goroutine than
+			// the producer, which appends to it without synchronization.
+			return sub.Unsubscribe
 		})
 	}
 }
